@@ -544,6 +544,20 @@ func ruleReadHandlers(w *World, r *Run) {
 				if len(wr) == 1 && len(gl) == 1 && okBefore(s, gl[0], 0) {
 					nLogs++
 					good := len(jm) == 1 && jm[0].Args[0] == res(gl[0], 0) && okBefore(s, jm[0], 0) && wr[0].Args[0] == res(jm[0], 0)
+					// an empty list instead of the witness's nil list ("[]" rather than "null"): the same set of logs
+					if !good && len(jm) == 1 && okBefore(s, jm[0], 0) && wr[0].Args[0] == res(jm[0], 0) {
+						arg := jm[0].Args[0]
+						if arg != nil && arg.Kind == "alloc" {
+							if mv, ok := s.Mem[arg.key]; ok {
+								arg = mv
+							}
+						}
+						if n, known := knownLen(arg); known && n == 0 {
+							if k, isNil, _ := nilFact(s, res(gl[0], 0)); k && isNil {
+								good = true
+							}
+						}
+					}
 					r.Check(good, "C16.d", "GET logs handler | body = JSON of the witness's log list", w.pos(s.RetPos), "log list response is not json.Marshal(GetLogs()) written as is")
 				}
 			}
